@@ -17,6 +17,8 @@ pub struct ReplyVt {
     pub build: fn(&str, &str, u32) -> BuildRes,
     /// via "fn" (sv::dispatch_reply) | "ep" (entry_points::reply) | "mt" (multitest Contract impl)
     pub dispatch: fn(&str, DepsMut, Env, Reply) -> Result<Response, Value>,
+    /// a document delivered to the entry point of another kind ("exec" | "query" | "sudo"): (decoded by the contract-level message, call ok)
+    pub probe: fn(&str, DepsMut, Env, &[u8]) -> (bool, bool),
     /// the contract as the multitest chain stores it (programs with a `fire` handler: chain.rs)
     pub boxed: Option<fn() -> Box<dyn sylvia::cw_multi_test::Contract<Empty, Empty>>>,
 }
@@ -140,6 +142,37 @@ pub fn run_reply_program(vt: &ReplyVt, prog: &Value) {
                     rt::emit(v);
                 }
                 Err(_) => rt::emit(json!({"ev":"Panic","prog":id,"where":"dispatch_reply","msg":"panic"})),
+            }
+        }
+    }
+    probes(vt, prog);
+}
+
+/// C04 on the reply corpus: documents named after the reply methods and handler names, with a reply (or nothing) as their body,
+/// delivered to the execute, query and sudo entry points.
+fn probes(vt: &ReplyVt, prog: &Value) {
+    let id = vt.id;
+    let mut names: Vec<String> = prog["methods"].as_array().cloned().unwrap_or_default().iter().filter_map(|m| m["name"].as_str().map(String::from)).collect();
+    names.extend(prog["handlers"].as_array().cloned().unwrap_or_default().iter().filter_map(|h| h["h"].as_str().map(String::from)));
+    names.push("reply".to_string());
+    names.push("fire".to_string());
+    names.sort();
+    names.dedup();
+    #[allow(deprecated)]
+    let reply = Reply { id: 0, payload: Binary::default(), gas_used: 7, result: SubMsgResult::Ok(SubMsgResponse { events: vec![], data: None, msg_responses: vec![] }) };
+    let reply_json = String::from_utf8(sylvia::cw_std::to_json_vec(&reply).unwrap_or_default()).unwrap_or_default();
+    for key in &names {
+        for kind in ["exec", "query", "sudo"] {
+            for (bname, body) in [("reply", format!("{{\"reply\":{reply_json}}}")), ("under", format!("{{\"_reply\":{reply_json}}}")), ("empty", "{}".to_string())] {
+                let doc = format!("{{\"{key}\":{body}}}");
+                let (mut deps, env, _info, _envj) = crate::make_ctx(0);
+                rt::emit(json!({"ev":"Probe","prog":id,"kind":kind,"key":key,"body":bname}));
+                let f = vt.probe;
+                let out = std::panic::catch_unwind(std::panic::AssertUnwindSafe(|| f(kind, deps.as_mut(), env, doc.as_bytes())));
+                match out {
+                    Ok((decoded, ok)) => rt::emit(json!({"ev":"ProbeReturn","prog":id,"kind":kind,"key":key,"body":bname,"decoded":decoded,"ok":ok})),
+                    Err(_) => rt::emit(json!({"ev":"Panic","prog":id,"where":"probe","msg":"panic"})),
+                }
             }
         }
     }
